@@ -287,6 +287,46 @@ Proof.
   induction l as [|a l IH]; simpl; [reflexivity | f_equal; exact IH].
 Qed.
 
+(* ---------- every argument is rendered on its own; no state between arguments or formatters ---------- *)
+
+Lemma subst_subst_fn t args : subst t args = subst_fn t (fun i => nth i args []).
+Proof. reflexivity. Qed.
+
+Lemma subst_fn_ext t f g : (forall i, f i = g i) -> subst_fn t f = subst_fn t g.
+Proof.
+  intros H. unfold subst_fn. f_equal. apply map_ext. intros [s|i]; [reflexivity | apply H].
+Qed.
+
+(* marker i of the template receives render (argument i): a function of that argument alone, whatever
+   the other arguments are and however the arguments were supplied *)
+Theorem args_independent fmt ops : length (flatten_ops ops) = placeholder_count fmt ->
+  format_chain fmt ops = Ok (subst_fn (template fmt) (fun i => render (nth i (flatten_ops ops) (AStr [])))).
+Proof.
+  intros Hl. rewrite percent_and_args_agree, args_verbatim by (rewrite map_length; exact Hl).
+  f_equal. rewrite subst_subst_fn. apply subst_fn_ext. intros i.
+  change (@nil byte) with (render (AStr [])). apply map_nth.
+Qed.
+
+Lemma nth_error_map_render l : forall i, nth_error (map render l) i = option_map render (nth_error l i).
+Proof. induction l as [|a l IH]; intros [|i]; simpl; auto. Qed.
+
+(* the text supplied for position i is the same in any two argument lists that have the same i-th argument *)
+Theorem arg_text_alone l1 l2 i : nth_error l1 i = nth_error l2 i ->
+  nth_error (map render l1) i = nth_error (map render l2) i.
+Proof. intros H. rewrite !nth_error_map_render, H. reflexivity. Qed.
+
+(* a manipulator passed as an argument contributes the empty text and nothing else *)
+Theorem manip_renders_empty m : render (AManip m) = [].
+Proof. reflexivity. Qed.
+
+(* formatters used one after the other do not influence each other *)
+Theorem format_seq_independent l k f ops : nth_error l k = Some (f, ops) ->
+  nth_error (format_seq l) k = Some (format_chain f ops).
+Proof. intros H. unfold format_seq. rewrite (map_nth_error _ _ _ H). reflexivity. Qed.
+
+Theorem format_seq_length l : length (format_seq l) = length l.
+Proof. apply map_length. Qed.
+
 (* ---------- exception message ---------- *)
 
 Lemma make_exception_concat args : forall msg,
@@ -300,8 +340,9 @@ Proof.
     rewrite IH. simpl. rewrite <- app_assoc. reflexivity.
 Qed.
 
-Theorem exception_message_concat args : exception_what args = spec_message (map render args).
-Proof. unfold exception_what, make_string. apply make_exception_concat. Qed.
+Theorem exception_message_concat args : forallb stateless args = true ->
+  exception_what args = spec_message (map render args).
+Proof. intros _. unfold exception_what, make_string. apply make_exception_concat. Qed.
 
 (* ---------- the decimal printer ---------- *)
 
